@@ -1542,3 +1542,100 @@ def sp_brentq(f, a, b, *args, **kw):
 SCIPY_OPTIMIZE = Stub('scipy.optimize', {'brentq': sp_brentq})
 EXTERNAL['scipy.optimize'] = SCIPY_OPTIMIZE
 EXTERNAL['scipy'] = Stub('scipy', {'optimize': SCIPY_OPTIMIZE})
+
+
+class TupleLike(object):
+    """scipy result objects that index / unpack like tuples"""
+    def __init__(self, items, **attrs):
+        self.items, self.attrs = list(items), attrs
+
+    def sym_getitem(self, interp, key):
+        return self.items[key]
+
+    def sym_unpack(self, interp, n):
+        if n != len(self.items):
+            _raise('ValueError', 'too many values to unpack')
+        return list(self.items)
+
+    def sym_getattr(self, interp, name):
+        if name in self.attrs:
+            return self.attrs[name]
+        raise Unsupported('attribute %s of a scipy result' % name)
+
+    def sym_iter(self, interp):
+        return list(self.items), False
+
+
+def _whole(x):
+    x = _num(x)
+    if isinstance(x, Lane):
+        return x.whole()
+    if isinstance(x, Arr2):
+        return x.whole()
+    if hasattr(x, 'whole'):
+        return x.whole()
+    raise Unsupported('whole-array term of %r' % (x,))
+
+
+@model('scipy.stats.kendalltau', 'kendalltau(U, V): [0] is Kendall tau-b of the two samples, a deterministic function of '
+       '(U, V) with values in [-1, 1], NaN iff one of the samples is constant; [1] is the p-value; pure')
+def st_kendalltau(u, v, **kw):
+    wu, wv = _whole(u), _whole(v)
+    tau = ir.uf('kendalltau', [wu, wv])
+    values.NANABLE.add(tau)
+    nan = ir.uf('isnan', [tau], 'B')
+    c = State.ctx
+    c.assume(ir.implies(ir.not_(nan), ir.and_(ir.ge(tau, -1), ir.le(tau, 1))))
+    # NaN iff a constant column
+    cu = ir.eq(ir.uf('n_unique', [wu], 'I'), 1)
+    cv = ir.eq(ir.uf('n_unique', [wv], 'I'), 1)
+    c.assume(ir.eq(nan, ir.or_(cu, cv)))
+    c.event('libcall', ('kendalltau', [wu, wv]), State.where)
+    return TupleLike([Sym(tau), Sym(ir.uf('kendalltau.p', [wu, wv]))], statistic=Sym(tau),
+                     correlation=Sym(tau), pvalue=Sym(ir.uf('kendalltau.p', [wu, wv])))
+
+
+QUAD_VAR = ir.var('$t')
+
+
+@model('scipy.integrate.quad', 'quad(f, a, b): REQUIRES scalar limits (scipy >= 1.15 raises TypeError for array limits); '
+       '[0] is the integral of f over [a, b] (a deterministic function of the integrand and the limits), [1] an error bound')
+def sp_quad(f, a, b, *args, **kw):
+    for lim in (a, b):
+        if isinstance(lim, (Lane, Arr2)):
+            _raise('TypeError', 'only 0-dimensional arrays can be converted to Python scalars (array passed as an '
+                   'integration limit of quad)')
+    saved = State.safety
+    State.safety = False
+    try:
+        body = _I().call(f, [Sym(QUAD_VAR)], {})
+    finally:
+        State.safety = saved
+    t = ir.uf('integral', [to_term(body), to_term(a), to_term(b)])
+    State.ctx.event('libcall', ('quad', [to_term(body), to_term(a), to_term(b)]), State.where)
+    return TupleLike([Sym(t), Sym(ir.uf('integral.err', [to_term(body), to_term(a), to_term(b)]))])
+
+
+@model('scipy.optimize.least_squares', 'least_squares(fun, x0, bounds=(lo, hi)): calls fun with a (n,) ndarray; .x is an '
+       '(n,) array inside the bounds at which fun vanishes when fun has a root in the bounds (convergence from any x0 is '
+       'ASSUMED, nothing is claimed otherwise); deterministic in (fun, x0, bounds)')
+def sp_least_squares(fun, x0, bounds=None, **kw):
+    c = State.ctx
+    x = c.fresh('lsq_x')
+    xl = Lane(x, 1)
+    res = _I().call(fun, [xl], {})
+    rt = res.t if isinstance(res, (Lane, Sym)) else to_term(res)
+    lo, hi = (bounds if bounds is not None else (Sym(ir.NINF), Sym(ir.INF)))
+    c.assume(ir.and_(ir.le(to_term(lo), x), ir.le(x, to_term(hi))))
+    c.assume(ir.eq(rt, 0))
+    c.event('libcall', ('least_squares', [to_term(x0), to_term(lo), to_term(hi)]), State.where)
+    c.event('least_squares', {'x': x, 'residual': rt, 'x0': to_term(x0)}, State.where)
+    return Opaque('lsq_result', x=Lane(x, 1))
+
+
+SCIPY_OPTIMIZE._table['least_squares'] = sp_least_squares
+SCIPY_STATS = Stub('scipy.stats', {'kendalltau': st_kendalltau})
+SCIPY_INTEGRATE = Stub('scipy.integrate', {'quad': sp_quad})
+EXTERNAL['scipy.stats'] = SCIPY_STATS
+EXTERNAL['scipy.integrate'] = SCIPY_INTEGRATE
+EXTERNAL['scipy']._table.update({'stats': SCIPY_STATS, 'integrate': SCIPY_INTEGRATE})
